@@ -318,8 +318,8 @@ def evalTrig (env : Env) : TrigSpec → Trig × TrigSpec
   | .every n =>
     match getIters env with
     | none => (.err, .every n)                       -- the lens fails: `Err`
-    | some it => if n = 0 then (.panic, .every n)    -- `value % 0`
-                 else (if it % n = 0 then .fire else .skip, .every n)
+    -- `value.checked_rem(n).map_or(value == 0, |rem| rem == 0)`: for n = 0 only the value 0 fires
+    | some it => (if n = 0 then (if it = 0 then .fire else .skip) else (if it % n = 0 then .fire else .skip), .every n)
   | .script [] => (.skip, .script [])
   | .script (o :: rest) => (o, .script rest)
   | .neg t =>
@@ -630,8 +630,10 @@ def handleProgram (input implOut : Sexp) : Option CaseResult := do
       let holds := Sexp.beq model implOut
       pure { model, holds, cls := if holds then "-" else "wrong-value" }
     | .error .panic =>
-      -- a trigger panicked (`EveryN` with n = 0: outside C15, the harness does not generate it)
-      pure { model := Sexp.list [.atom "res", .atom "panic"], holds := false, cls := "panic" }
+      -- a (scripted) trigger panicked: the panic propagates, nothing else is demanded
+      let model := Sexp.list [.atom "res", .atom "panic"]
+      let holds := Sexp.beq model implOut
+      pure { model, holds, cls := if holds then "-" else "wrong-value" }
     | .error .timeout => none
   | _ => none
 
@@ -654,7 +656,7 @@ def handleWitness (input implOut : Sexp) : Option CaseResult := do
         | _ => none
       let execs : List (List (Rule String String) × Option String) := snaps.map fun (it, vs) =>
         (rules.map fun (k, name) =>
-          { trig := if k = 0 then .panic else if it % k = 0 then .fire else .skip,
+          { trig := if k = 0 then (if it = 0 then .fire else .skip) else if it % k = 0 then .fire else .skip,
             name := name,
             value := match lookup vs name with | some v => v | none => none },
          some (toString it))
@@ -721,16 +723,17 @@ def paramless : List String := ["real_rs", "permutation_rs"]
 def pairOut (ronEq : Bool) (jsonEq : Option Bool) : Sexp :=
   .list [.atom "pair", .list [.atom "a", .atom "ok"], .list [.atom "b", .atom "ok"],
     .list [.atom "ron-eq", ofBool ronEq],
+    .list [.atom "tree-eq", ofBool ronEq],   -- the harness's name-preserving serde traversal (hcommon::sertree)
     .list [.atom "json-eq", match jsonEq with | some b => ofBool b | none => .atom "-"],
     .list [.atom "clone-eq", ofBool true]]
 
 def pairClass (model implOut : Sexp) : String :=
   if Sexp.beq model implOut then "-" else
   match implOut with
-  | .list [_, .list [_, .atom a], .list [_, .atom b], .list [_, .atom r], .list [_, .atom j], .list [_, .atom c]] =>
+  | .list [_, .list [_, .atom a], .list [_, .atom b], .list [_, .atom r], .list [_, .atom t], .list [_, .atom j], .list [_, .atom c]] =>
     if a != "ok" || b != "ok" then "ser-err"
     else if c != "t" then "clone-differs"
-    else if r == "t" || j == "t" then "collision" else "spurious-difference"
+    else if r == "t" || j == "t" || t == "t" then "collision" else "spurious-difference"
   | _ => "wrong-value"
 
 /-- Sites `cfg-*`. -/
